@@ -182,6 +182,18 @@ func (lf *logFile) Truncate(lastToKeep uint64) error {
 	}
 	verifhook.At("wal.truncate.after", lf.f.Name(), nil)
 
+	// Make the truncation durable before reporting success. Otherwise, after
+	// a power loss, the removed records could reappear; if the log has rolled
+	// to a new file in the meantime they would even sit in the middle of the
+	// log, before records that were appended (and acknowledged) later.
+	verifhook.At("wal.sync.before", lf.f.Name())
+	if err := lf.f.Sync(); err != nil {
+		verifhook.At("wal.sync.after", lf.f.Name(), err)
+		log.Errorf("Failed to sync %q after truncate: %v", lf.f.Name(), err)
+		return err
+	}
+	verifhook.At("wal.sync.after", lf.f.Name(), nil)
+
 	// Update bookkeeping
 	if lastToKeep < lf.firstID {
 		// If the request if for an ID before the first in this file
